@@ -243,7 +243,17 @@ func c05Run(j *rt.Job, seed uint64, r *rt.Rec) {
 		if j.Kind == "pkbits" {
 			step = j.Int("step")
 		}
+		cnt := 0
 		for bit := lo + rng.Intn(step); bit < hi; bit += step {
+			cnt++
+			if cnt%50 == 0 {
+				// canary: the honest triple must still verify after whatever the verifier has seen in between
+				if ok, _ := dilVerify(msg, sig[:], pk[:]); !ok {
+					r.Violate("C05/valid-rejected-after-history", "an honest signature stopped verifying after invalid inputs were presented to the verifier", jobCase(j), "accepted", "rejected")
+					return
+				}
+				r.Count("canary_honest_reverified", 1)
+			}
 			useRef := rng.Intn(400) == 0
 			if j.Kind == "sigbits" {
 				region := "z"
@@ -336,7 +346,26 @@ func c05Crafted(j *rt.Job, rng *rt.Rand, r *rt.Rec) {
 		}
 		prev = counts[row]
 	}
-	// R3: duplicate one hint position (needs total weight < omega)
+	// R3: duplicate one hint position (needs total weight < omega): a random one, the first and the last of a
+	// row, and -- on a signature searched for the purpose -- position 0 and position 255
+	dup := func(base []byte, bcounts [8]int, row, at int) []byte {
+		s3 := append([]byte(nil), base...)
+		copy(s3[hintOff+at+1:hintOff+75], base[hintOff+at:hintOff+74])
+		s3[hintOff+at+1] = base[hintOff+at]
+		for rr := row; rr < 8; rr++ {
+			s3[hintOff+75+rr]++
+		}
+		return s3
+	}
+	judgeDup := func(class string, m []byte, base []byte, bcounts [8]int, row, at int) bool {
+		s3 := dup(base, bcounts, row, at)
+		if ok, _ := dilref.VerifyLoose(pk, m, s3, dilref.Loose{Duplicate: true}); !ok {
+			r.Inconclusive(class + " construction is not isolating")
+			return false
+		}
+		r.Count("R3_isolating_confirmed", 1)
+		return c05Judge(r, class, pk, m, s3, "reject", true)
+	}
 	if total < dilOmega && total > 0 {
 		row := 0
 		for counts[row] == 0 {
@@ -346,21 +375,37 @@ func c05Crafted(j *rt.Job, rng *rt.Rand, r *rt.Rec) {
 		if row > 0 {
 			start = counts[row-1]
 		}
-		at := start + rng.Intn(counts[row]-start)
-		s3 := mut()
-		copy(s3[hintOff+at+1:hintOff+75], sig[hintOff+at:hintOff+74])
-		s3[hintOff+at+1] = sig[hintOff+at]
-		for rr := row; rr < 8; rr++ {
-			s3[hintOff+75+rr]++
-		}
-		if ok, _ := dilref.VerifyLoose(pk, msg, s3, dilref.Loose{Duplicate: true}); ok {
-			r.Count("R3_isolating_confirmed", 1)
-			if !c05Judge(r, "R3-duplicated-hint", pk, msg, s3, "reject", true) {
-				return
-			}
-		} else {
-			r.Inconclusive("R3 construction is not isolating")
+		if !judgeDup("R3-duplicated-hint", msg, sig, counts, row, start+rng.Intn(counts[row]-start)) ||
+			!judgeDup("R3-duplicated-first-of-row", msg, sig, counts, row, start) ||
+			!judgeDup("R3-duplicated-last-of-row", msg, sig, counts, row, counts[row]-1) {
 			return
+		}
+	}
+	found0, found255 := false, false
+	for t := 0; t < 150 && !(found0 && found255); t++ {
+		m2 := rng.Bytes(6)
+		sg, _ := lib.Sign(m2)
+		c2 := hintCounts(sg[:])
+		if c2[7] >= dilOmega {
+			continue
+		}
+		prev := 0
+		for row := 0; row < 8; row++ {
+			if c2[row] > prev {
+				if sg[hintOff+prev] == 0 && !found0 {
+					found0 = true
+					if !judgeDup("R3-duplicated-position-0", m2, sg[:], c2, row, prev) {
+						return
+					}
+				}
+				if sg[hintOff+c2[row]-1] == 255 && !found255 {
+					found255 = true
+					if !judgeDup("R3-duplicated-position-255", m2, sg[:], c2, row, c2[row]-1) {
+						return
+					}
+				}
+			}
+			prev = c2[row]
 		}
 	}
 	// R4: non-zero padding in an unused position slot
@@ -473,6 +518,46 @@ func c05Crafted(j *rt.Job, rng *rt.Rand, r *rt.Rec) {
 		r.Violate("C05/open-extended", "Open accepts a sealed message with a byte appended", jobCase(j), "nil", "")
 		return
 	}
+	// cold keys: the FIRST thing the verifier sees under a fresh public key is a malformed signature
+	// (all-zero, random, broken hint section, out-of-range response); the honest signature comes second
+	for v := 0; v < 4; v++ {
+		ck := dilLibKey(rng.Seed48())
+		cpk := ck.GetPK()
+		cm := rng.Bytes(9)
+		cs, _ := ck.Sign(cm)
+		var bad []byte
+		switch v {
+		case 0:
+			bad = make([]byte, dilSigBytes)
+		case 1:
+			bad = rng.Bytes(dilSigBytes)
+		case 2:
+			bad = append([]byte(nil), cs[:]...)
+			bad[hintOff+75] = 200
+		default:
+			bad = append([]byte(nil), cs[:]...)
+			copy(bad[32:37], []byte{0, 0, 0, 0, 0}) // two coefficients = +gamma1
+		}
+		if !c05Judge(r, "cold-key-malformed-first", cpk[:], cm, bad, "reject", false) {
+			return
+		}
+		if ok, _ := dilVerify(cm, cs[:], cpk[:]); !ok {
+			r.Violate("C05/valid-rejected-after-history", "the honest signature of a key is rejected when the first signature presented under that key was malformed", jobCase(j), "accepted", "rejected")
+			return
+		}
+		var cpkA [dilPKBytes]byte = cpk
+		if o := dilithium.Open(append(append([]byte(nil), cs[:]...), cm...), &cpkA); !bytes.Equal(o, cm) {
+			r.Violate("C05/valid-rejected-after-history", "Open refuses the honest sealed message of a key after a malformed one was presented first", jobCase(j), "message", "nil")
+			return
+		}
+		r.Count("cold_key_sequences", 1)
+	}
+	// canary: after everything above the honest triple must still verify
+	if ok, _ := dilVerify(msg, sig, pk); !ok {
+		r.Violate("C05/valid-rejected-after-history", "an honest signature stopped verifying after invalid inputs were presented to the verifier", jobCase(j), "accepted", "rejected")
+		return
+	}
+	r.Count("canary_honest_reverified", 1)
 	r.Sample(map[string]interface{}{"seed": rt.Hex(ks[:8]) + "..", "msg_len": len(msg), "hint_weight": total, "hint_counts": counts})
 }
 
